@@ -25,9 +25,9 @@ class Unsupported(Exception):
     pass
 
 
-def clang_json(filt):
-    cmd = ["clang-14", "-fsyntax-only", "-Xclang", "-ast-dump=json", "-Xclang", "-ast-dump-filter=" + filt,
-           "-I" + os.path.join(REPO, "include"), "-I" + os.path.join(REPO, "src"), SRC]
+def clang_json(filt, src=None):
+    cmd = ["clang-14", "-fsyntax-only", "-DNDEBUG", "-Xclang", "-ast-dump=json", "-Xclang", "-ast-dump-filter=" + filt,
+           "-I" + os.path.join(REPO, "include"), "-I" + os.path.join(REPO, "src"), src or SRC]
     r = subprocess.run(cmd, capture_output=True, text=True)
     txt = r.stdout
     dec = json.JSONDecoder()
@@ -64,6 +64,27 @@ def enum_values():
     return vals
 
 
+def probe_enum_values(header, names):
+    """values of enum constants of an anonymous enum: a probe translation unit re-declares them as initialisers, clang evaluates"""
+    import tempfile
+    with tempfile.NamedTemporaryFile("w", suffix=".c", delete=False) as f:
+        f.write("#include <%s>\nenum lpv_probe_enum { %s };\n" % (header, ", ".join("lpv_probe_%d = %s" % (i, n) for i, n in enumerate(names))))
+        path = f.name
+    try:
+        vals = {}
+        for o in clang_json("lpv_probe_enum", path):
+            if o.get("kind") == "EnumDecl":
+                for c in o.get("inner", []):
+                    if c.get("kind") == "EnumConstantDecl" and c["name"].startswith("lpv_probe_"):
+                        v = find_int_literal(c)
+                        if v is None:
+                            raise Unsupported("enum constant without a value")
+                        vals[names[int(c["name"][len("lpv_probe_"):])]] = v
+        return vals
+    finally:
+        os.unlink(path)
+
+
 def find_int_literal(n):
     if n.get("kind") == "IntegerLiteral":
         return int(n["value"])
@@ -83,9 +104,11 @@ def strip(n):
 
 
 class Fn:
-    def __init__(self, decl, enums):
+    def __init__(self, decl, enums, spec=None):
         self.decl = decl
         self.enums = enums
+        self.spec = spec or {}
+        self.sym = {}          # pointer-valued locals -> symbolic name
         self.params = [c["name"] for c in decl["inner"] if c.get("kind") == "ParmVarDecl"]
         self.body = [c for c in decl["inner"] if c.get("kind") == "CompoundStmt"][0]
         self.uses_interval = "I" in self.params
@@ -105,12 +128,22 @@ class Fn:
             raise Unsupported("reference to " + rd["kind"])
         if k == "MemberExpr":
             base = strip(n["inner"][0])
+            if base.get("kind") == "DeclRefExpr" and "members" in self.spec:
+                key = (base["referencedDecl"]["name"], n["name"])
+                if key in self.spec["members"]:
+                    return self.spec["members"][key]
+                raise Unsupported("member %s->%s" % key)
             if base.get("kind") == "DeclRefExpr" and base["referencedDecl"]["name"] == "I" and n["name"] in ("is_point", "a_open", "b_open"):
                 return {"is_point": "isPoint", "a_open": "aOpen", "b_open": "bOpen"}[n["name"]]
             raise Unsupported("member " + n.get("name", "?"))
         if k == "CallExpr":
             callee = strip(n["inner"][0])["referencedDecl"]["name"]
             args = n["inner"][1:]
+            if "calls" in self.spec:
+                key = (callee,) + tuple(self.symbol(a) for a in args)
+                if key in self.spec["calls"]:
+                    return self.spec["calls"][key]
+                raise Unsupported("call %s%s" % (callee, key[1:]))
             if callee == "lp_value_sgn" and len(args) == 1:
                 a = strip(args[0])
                 if a.get("kind") == "UnaryOperator" and a.get("opcode") == "&":
@@ -132,9 +165,28 @@ class Fn:
             if op == "&&":
                 return "(if %s ≠ 0 ∧ %s ≠ 0 then (1 : Int) else 0)" % (a, b)
             raise Unsupported("binary operator " + op)
+        if k == "UnaryOperator" and n.get("opcode") == "-":
+            return "(-%s)" % self.expr(n["inner"][0])
         if k == "UnaryOperator" and n.get("opcode") == "!":
             return "(if %s ≠ 0 then (0 : Int) else 1)" % self.expr(n["inner"][0])
         raise Unsupported("expression " + str(k))
+
+    def symbol(self, n):
+        """symbolic name of a pointer-valued argument: a parameter, a pointer local, or a call producing a bound"""
+        n = strip(n)
+        if n.get("kind") == "DeclRefExpr":
+            nm = n["referencedDecl"]["name"]
+            return self.sym.get(nm, nm)
+        if n.get("kind") == "CallExpr":
+            callee = strip(n["inner"][0])["referencedDecl"]["name"]
+            return callee + "(" + ",".join(self.symbol(a) for a in n["inner"][1:]) + ")"
+        raise Unsupported("pointer expression " + str(n.get("kind")))
+
+    @staticmethod
+    def has_return(n):
+        if n.get("kind") == "ReturnStmt":
+            return True
+        return any(Fn.has_return(c) for c in n.get("inner", []))
 
     # ---------------- statements: a list of statements is translated with the continuation `rest`
     def flat(self, stmt):
@@ -148,6 +200,17 @@ class Fn:
         k = s.get("kind")
         if k == "NullStmt":
             return self.stmts(rest, ind)
+        if k in ("ParenExpr", "CStyleCastExpr"):           # `(void)0` left by assert() under NDEBUG
+            if find_int_literal(s) == 0 and not Fn.has_return(s):
+                return self.stmts(rest, ind)
+            raise Unsupported("expression statement")
+        if k == "IfStmt" and self.spec.get("skip_if_param"):
+            c = strip(s["inner"][0])
+            if c.get("kind") == "DeclRefExpr" and c["referencedDecl"]["name"] == self.spec["skip_if_param"] and len(s["inner"]) == 2:
+                # construction of the optional output: no influence on the classification as long as it cannot return
+                if Fn.has_return(s["inner"][1]):
+                    raise Unsupported("return inside the optional-output block")
+                return self.stmts(rest, ind)
         if k == "ReturnStmt":
             return pad + self.expr(s["inner"][0])
         if k == "CompoundStmt":
@@ -158,8 +221,13 @@ class Fn:
                 if v.get("kind") != "VarDecl":
                     raise Unsupported("declaration " + v.get("kind", "?"))
                 init = [c for c in v.get("inner", [])]
+                if "*" in v.get("type", {}).get("qualType", ""):
+                    if not init:
+                        raise Unsupported("uninitialised pointer local")
+                    self.sym[v["name"]] = self.symbol(init[0])
+                    continue
                 out.append(pad + "let %s : Int := %s" % (v["name"], self.expr(init[0]) if init else "0"))
-            return "\n".join(out) + "\n" + self.stmts(rest, ind)
+            return "\n".join(out) + ("\n" if out else "") + self.stmts(rest, ind)
         if k == "BinaryOperator" and s.get("opcode") == "=":
             lhs = strip(s["inner"][0])
             if lhs.get("kind") != "DeclRefExpr" or lhs["referencedDecl"]["kind"] != "VarDecl":
@@ -215,13 +283,16 @@ class Fn:
         raise Unsupported("statement " + str(k))
 
     def lean(self):
-        name = LEAN_NAME[self.decl["name"]]
+        name = self.spec.get("name") or LEAN_NAME[self.decl["name"]]
         ps = []
-        for p in self.params:
-            if p == "I":
-                ps += ["isPoint", "sgnA", "sgnB", "aOpen", "bOpen"]
-            else:
-                ps.append(p)
+        if "lean_params" in self.spec:
+            ps = list(self.spec["lean_params"])
+        else:
+            for p in self.params:
+                if p == "I":
+                    ps += ["isPoint", "sgnA", "sgnB", "aOpen", "bOpen"]
+                else:
+                    ps.append(p)
         sig = "def %s %s : Int :=\n" % (name, " ".join("(%s : Int)" % p for p in ps))
         return sig + self.stmts(self.body.get("inner", []), 1) + "\n"
 
@@ -254,17 +325,62 @@ def generate():
     return "\n".join(parts)
 
 
+ICMP_ENUM = ["LP_INTERVAL_CMP_LT_NO_INTERSECT", "LP_INTERVAL_CMP_LT_WITH_INTERSECT", "LP_INTERVAL_CMP_LT_WITH_INTERSECT_I1",
+             "LP_INTERVAL_CMP_LEQ_WITH_INTERSECT_I2", "LP_INTERVAL_CMP_EQ", "LP_INTERVAL_CMP_GEQ_WITH_INTERSECT_I1",
+             "LP_INTERVAL_CMP_GT_WITH_INTERSECT_I2", "LP_INTERVAL_CMP_GT_WITH_INTERSECT", "LP_INTERVAL_CMP_GT_NO_INTERSECT"]
+OUT2 = os.path.join(ROOT, "lean", "LP", "Gen", "IntervalCmp.lean")
+SRC2 = os.path.join(REPO, "src", "interval", "interval.c")
+
+
+def generate_icmp():
+    """classification part of lp_interval_cmp_with_intersect (src/interval/interval.c); the blocks guarded by `if (P)` only build
+    the optional intersection and are skipped after checking that they cannot return"""
+    vals = probe_enum_values("interval.h", ICMP_ENUM)
+    if not all(k in vals for k in ICMP_ENUM):
+        raise Unsupported("enum of lp_interval_cmp_t not found (%s)" % sorted(vals))
+    f = "lp_interval_cmp_with_intersect"
+    decls = [o for o in clang_json(f, SRC2) if o.get("kind") == "FunctionDecl" and o.get("name") == f and
+             any(c.get("kind") == "CompoundStmt" for c in o.get("inner", []))]
+    if len(decls) != 1:
+        raise Unsupported("definition of %s not found exactly once" % f)
+    spec = {
+        "name": "intervalCmp",
+        "lean_params": ["cmpUb", "cmpLb", "cmpUb1Lb2", "cmpLb1Ub2", "aOpen1", "bOpen1", "aOpen2", "bOpen2"],
+        "members": {("I1", "a_open"): "aOpen1", ("I1", "b_open"): "bOpen1", ("I2", "a_open"): "aOpen2", ("I2", "b_open"): "bOpen2"},
+        "calls": {("lp_interval_cmp_upper_bounds", "I1", "I2"): "cmpUb",
+                  ("lp_interval_cmp_lower_bounds", "I1", "I2"): "cmpLb",
+                  ("lp_value_cmp", "lp_interval_get_upper_bound(I1)", "lp_interval_get_lower_bound(I2)"): "cmpUb1Lb2",
+                  ("lp_value_cmp", "lp_interval_get_lower_bound(I1)", "lp_interval_get_upper_bound(I2)"): "cmpLb1Ub2"},
+        "skip_if_param": "P",
+    }
+    parts = ["/-\n  GENERATED by tools/translate_tables.py from src/interval/interval.c (lp_interval_cmp_with_intersect, classification\n"
+             "  part; clang JSON AST) — do not edit.  Arguments: the two bound comparisons, the comparisons of I1's upper with I2's lower\n"
+             "  bound and of I1's lower with I2's upper bound, and the strictness flags.\n-/\nnamespace LP\nnamespace Gen\n"]
+    parts.append("/-- values of `lp_interval_cmp_t` as found in the header, in the order LT_NO, LT_WITH, LT_WITH_I1, LEQ_WITH_I2, EQ,\n"
+                 "    GEQ_WITH_I1, GT_WITH_I2, GT_WITH, GT_NO -/\n"
+                 "def icmpEnumValues : List Int := [%s]\n" % ", ".join(str(vals[e]) for e in ICMP_ENUM))
+    parts.append(Fn(decls[0], vals, spec).lean())
+    parts.append("end Gen\nend LP\n")
+    return "\n".join(parts)
+
+
+def write_if_changed(path, txt):
+    os.makedirs(os.path.dirname(path), exist_ok=True)
+    old = open(path).read() if os.path.exists(path) else None
+    if old != txt:
+        open(path, "w").write(txt)
+    print("generated %s (%s)" % (path, "unchanged" if old == txt else "updated"))
+
+
 def main():
     try:
         txt = generate()
+        txt2 = generate_icmp()
     except Unsupported as e:
         print("TRANSLATOR-UNSUPPORTED: " + str(e))
         return 3
-    os.makedirs(os.path.dirname(OUT), exist_ok=True)
-    old = open(OUT).read() if os.path.exists(OUT) else None
-    if old != txt:
-        open(OUT, "w").write(txt)
-    print("generated %s (%s)" % (OUT, "unchanged" if old == txt else "updated"))
+    write_if_changed(OUT, txt)
+    write_if_changed(OUT2, txt2)
     return 0
 
 
